@@ -21,7 +21,8 @@ pointer or array type evaluates to the pointer named after the cell, so `m->geom
 
 Helpers built on the interpreter:
     leaves(run, domain)                       all (inputs, result) pairs of a lazily enumerated evaluation
-    truth_table(unit, expr, terms, ...)       table of an expression over opaque sub-terms given by text
+    eval_expr(unit, expr, env, terms)         one evaluation; `terms` binds opaque sub-expressions by canonical text
+    truth_table(unit, expr)                   table of an expression over the finite domain of everything it reads
     comparator_report(unit, fn)               R-CMP: antisymmetry (and transitivity for small comparators)
     conjuncts / disjuncts / enclosing         small structural helpers shared by c14 / c16 / c22
 """
@@ -730,7 +731,7 @@ def eval_expr(unit, expr, env=None, terms=None, call_abs=None, inline=None):
     return it.rvalue(expr)
 
 
-def truth_table(unit, expr, domain=default_domain, terms_of=None, call_abs=None, inline=None):
+def truth_table(unit, expr, domain=default_domain, call_abs=None, inline=None):
     """[(env, value)] of an expression over the finite domain of everything it reads."""
     def run(env):
         return eval_expr(unit, expr, env=env, call_abs=call_abs, inline=inline)
@@ -793,9 +794,7 @@ def comparator_report(unit, fn, domain=default_domain, trans_limit=30000):
                     out["nan"].append(rec)
                 else:
                     out["ordered"].append(rec)
-    for k in out["keys"]:
-        pass
-    # transitivity over complete element valuations, when small enough
+    # transitivity over complete element valuations (for every valuation of the context cells), when small enough
     out["transitive"] = None
     elem_suffix = set()
     ctx_keys = set()
@@ -806,8 +805,8 @@ def comparator_report(unit, fn, domain=default_domain, trans_limit=30000):
         else:
             elem_suffix.add(s)
     out["elem_keys"] = sorted(elem_suffix)
-    if not ctx_keys and elem_suffix:
-        # domains by probing: type of each key from a NeedKey raised on an empty env is not kept; re-derive
+    out["ctx_keys"] = sorted(ctx_keys)
+    if elem_suffix and out["leaves"] <= 400:
         types = {}
 
         def probe(env):
@@ -820,35 +819,43 @@ def comparator_report(unit, fn, domain=default_domain, trans_limit=30000):
                     e[nk.key] = v
                     probe(e)
         probe({})
+
+        def ordered(dom):
+            return tuple(v for v in dom if not is_nan(v))
         suffixes = sorted(elem_suffix)
-        doms = []
-        for s in suffixes:
-            t = types.get(a + s) or types.get(b + s) or "int"
-            doms.append(tuple(domain(a + s, t)))
+        doms = [ordered(domain(a + s, types.get(a + s) or types.get(b + s) or "int")) for s in suffixes]
         elems = [()]
         for d in doms:
             elems = [e + (v,) for e in elems for v in d]
-        ordered_elems = [e for e in elems if not any(is_nan(v) for v in e)]
-        if len(ordered_elems) ** 3 <= trans_limit * 30:
-            def cmpv(x, y):
-                env = {}
-                for s, v in zip(suffixes, x):
-                    env[a + s] = v
-                for s, v in zip(suffixes, y):
-                    env[b + s] = v
-                return sign(run(env))
-            tab = {(x, y): cmpv(x, y) for x in ordered_elems for y in ordered_elems}
+        ckeys = sorted(ctx_keys)
+        ctxs = [()]
+        for k in ckeys:
+            ctxs = [c + (v,) for c in ctxs for v in ordered(domain(k, types.get(k, "int")))]
+        if len(ctxs) * len(elems) ** 3 <= trans_limit:
             bad = []
-            for x in ordered_elems:
-                if tab[(x, x)] != 0:
-                    bad.append(("irreflexive", x, x, x))
-                for y in ordered_elems:
-                    for z in ordered_elems:
-                        if tab[(x, y)] < 0 and tab[(y, z)] < 0 and not tab[(x, z)] < 0:
-                            bad.append(("transitive <", x, y, z))
-                        if tab[(x, y)] == 0 and tab[(y, z)] == 0 and tab[(x, z)] != 0:
-                            bad.append(("transitive ==", x, y, z))
-            out["transitive"] = {"elements": len(ordered_elems), "violations": bad[:3], "suffixes": suffixes}
+            for cv in ctxs:
+                base = dict(zip(ckeys, cv))
+
+                def cmpv(x, y):
+                    env = dict(base)
+                    for s, v in zip(suffixes, x):
+                        env[a + s] = v
+                    for s, v in zip(suffixes, y):
+                        env[b + s] = v
+                    return sign(run(env))
+                tab = {(x, y): cmpv(x, y) for x in elems for y in elems}
+                for x in elems:
+                    if tab[(x, x)] != 0:
+                        bad.append(("cmp(x, x) != 0", x, x, x))
+                    for y in elems:
+                        for z in elems:
+                            if tab[(x, y)] < 0 and tab[(y, z)] < 0 and not tab[(x, z)] < 0:
+                                bad.append(("transitivity of <", x, y, z))
+                            if tab[(x, y)] == 0 and tab[(y, z)] == 0 and tab[(x, z)] != 0:
+                                bad.append(("transitivity of ==", x, y, z))
+                if bad:
+                    break
+            out["transitive"] = {"elements": len(elems), "contexts": len(ctxs), "violations": bad[:3], "suffixes": suffixes}
     return out
 
 
